@@ -873,7 +873,7 @@ static int dag_main(int argc, char ** argv, const char * property, const char * 
       }
     }
   }
-  SQ.distinct = nall;
+  SQ.distinct = aux[1];   /* cases whose recorded DAG differs byte-wise from that of every earlier option setting of the same execution */
   /* report: per class the smallest reproducer first; second examples only while there is room */
   const fnd_t * order[MAXCLS * 2 * NBEST]; int no = 0;
   for (int pass = 0; pass < NBEST; pass++) {
